@@ -176,7 +176,12 @@ def run(ctx):
     exprs, plans, files = [], [], []
     try:
         for n in range(n_ds):
-            d = gen.any_dataset(rng, gen.FAMILIES[n % len(gen.FAMILIES)])
+            kw16 = {}
+            if n == 4:
+                # every run has a mesh that carries all four optional tables, written to a file: its key is recomputed in fresh
+                # interpreters under other hash seeds
+                kw16 = dict(supplied={'edge_node', 'face_edge', 'edge_face', 'face_face'}, edge_dim_declared=True, invalid=False)
+            d = gen.any_dataset(rng, gen.FAMILIES[n % len(gen.FAMILIES)], **kw16)
             ds = d.ds
             gen.add_data_vars(rng, ds, {'face': d.spec['kinds']['face']}, names_prefix='h', n_extra_max=1)
             label = d.spec['label']
@@ -201,7 +206,7 @@ def run(ctx):
                     if cast:
                         held = 'integer connectivity tables stored unsigned'
             ctx.count(f'held:{held}')
-            from_file = rng.random() < 0.5
+            from_file = rng.random() < 0.5 or n == 4
             if from_file:
                 path = os.path.join(tmp, f'd{n}.nc')
                 with warnings.catch_warnings():
